@@ -117,6 +117,7 @@ func worldOf(files map[string]string, root string) (*oracle.World, error) {
 type optSet struct {
 	Name                                     string
 	Minimal, Expand, RemoveUnused, KeepNames bool
+	Verbose      bool // FlattenOpts.Verbose: the reporting pass at the end of Flatten runs (its output is discarded)
 	NoBase       bool // FlattenOpts.BasePath left empty (documented: relative references are then searched from the working directory)
 }
 
@@ -141,6 +142,8 @@ func parseOpt(o string) optSet {
 			s.KeepNames = true
 		case "nobase":
 			s.NoBase = true
+		case "verbose":
+			s.Verbose = true
 		}
 	}
 	return s
@@ -217,7 +220,7 @@ func runFlattenFault(files map[string]string, root string, o optSet, failAt int,
 		if preQuery != nil {
 			preQuery(r.Spec)
 		}
-		r.Err = analysis.Flatten(analysis.FlattenOpts{Spec: r.Spec, BasePath: baseOf(o, root), Minimal: o.Minimal, Expand: o.Expand, RemoveUnused: o.RemoveUnused, KeepNames: o.KeepNames})
+		r.Err = analysis.Flatten(analysis.FlattenOpts{Spec: r.Spec, BasePath: baseOf(o, root), Minimal: o.Minimal, Expand: o.Expand, RemoveUnused: o.RemoveUnused, KeepNames: o.KeepNames, Verbose: o.Verbose})
 	})
 	r.Loads, r.Faulted = ld.loads, ld.failed
 	if r.OK() {
@@ -403,6 +406,13 @@ func (e flattenEngine) Gen(prop, tier string, seed uint64, idx int) *runner.Case
 	c := &runner.Case{Engine: "flatten", Name: name, Files: b.Files(nfObj), Root: "root.json", Opts: b.Opts(), Tags: b.TagList()}
 	if len(c.Files) > 1 && idx%4 == 3 {
 		relocateRoot(c)
+	}
+	if idx%3 == 1 {
+		// every third bundle also with the reporting pass switched on (it must change nothing)
+		c.Opts = append(c.Opts, "full+verbose")
+		if !b.AnonShared {
+			c.Opts = append(c.Opts, "min+ru+verbose")
+		}
 	}
 	return c
 }
@@ -1124,7 +1134,7 @@ func (e flattenEngine) c08(res *runner.Result, files map[string]string, root str
 	ld := &memLoader{files: files}
 	curLoader = ld
 	_, pi := runner.Call(nodes, nil, func() {
-		err = analysis.Flatten(analysis.FlattenOpts{Spec: run.Spec, BasePath: baseOf(o, root), Minimal: o.Minimal, Expand: o.Expand, RemoveUnused: o.RemoveUnused, KeepNames: o.KeepNames})
+		err = analysis.Flatten(analysis.FlattenOpts{Spec: run.Spec, BasePath: baseOf(o, root), Minimal: o.Minimal, Expand: o.Expand, RemoveUnused: o.RemoveUnused, KeepNames: o.KeepNames, Verbose: o.Verbose})
 	})
 	curLoader = nil
 	res.Evals++
